@@ -255,3 +255,57 @@ class DocBuilder:
         for _ in range(n):
             self.add_record(g.choice(scopes))
         return d, scopes
+
+
+def all_containers(w, roots):
+    """roots and their current bundles (handles), binding handles for bundles created internally"""
+    out = []
+    for c in roots:
+        if c in out:
+            continue
+        out.append(c)
+        obj = w.conts[c]
+        if obj.is_document():
+            for i, _b in enumerate(list(obj.bundles)):
+                h = w.bundle_at(c, i)
+                if h not in out:
+                    out.append(h)
+    return out
+
+
+def derive_step(g, w, b, docs):
+    """one random record-moving operation between documents; returns handle of a new container or None"""
+    r = g.rng
+    k = r.random()
+    d = r.choice(docs)
+    if k < 0.2:
+        h, _e = w.unified(r.choice(all_containers(w, [d])))
+        return h
+    if k < 0.35:
+        h, _e = w.flattened(d)
+        return h if h != d else None
+    if k < 0.55 and len(docs) > 1:
+        o = r.choice([x for x in docs if x != d])
+        w.update(d, o)
+        return None
+    if k < 0.7 and len(docs) > 1:
+        o = r.choice([x for x in docs if x != d])
+        ident = b.fresh_name(d) if g.chance(0.8) else None
+        w.add_bundle(d, o, ident)
+        return None
+    if k < 0.85:
+        conts = all_containers(w, docs)
+        src = r.choice(conts)
+        n = len(w.conts[src].records)
+        if n:
+            hs = [w.rec_at(src, r.randrange(n)) for _ in range(r.randint(1, 3))]
+            h, _e = w.new_doc_from(hs, bundle=g.chance(0.3))
+            return h
+        return None
+    conts = all_containers(w, docs)
+    src = r.choice(conts)
+    dst = r.choice(conts)
+    n = len(w.conts[src].records)
+    if n:
+        w.add_record(dst, w.rec_at(src, r.randrange(n)))
+    return None
